@@ -16,6 +16,8 @@ The oracle is an independent parser applied to the bytes actually delivered.
 See DESIGN.md section 3 (C19).
 """
 import errno
+import os
+import pathlib
 import re
 import sys
 import warnings
@@ -310,7 +312,7 @@ def check_loaded(result, v, dtype, gid_expected, path, where):
     if result.attrs.get("gridID") != gid_expected:
         raise Violation("attrs", f"{where}: gridID {result.attrs.get('gridID')!r} != {gid_expected!r}")
     if path is not None:
-        if result.attrs.get("file") != path:
+        if "file" not in result.attrs or os.fspath(result.attrs["file"]) != path:
             raise Violation("attrs", f"{where}: file attribute {result.attrs.get('file')!r} != path {path!r}")
     elif "file" in result.attrs:
         raise Violation("attrs", f"{where}: file attribute present for a file object")
@@ -333,11 +335,14 @@ class Loader:
         disk = self.disk
         st = self.stats
         path = disk.path(name)
+        pathlike = kind == "pathlib"
+        if pathlike:
+            kind = "path"
         if kind == "path":
             disk.next_fault = fault
             disk.open_error = open_error
             disk.last_handle = None
-            arg = path
+            arg = pathlib.Path(path) if pathlike else path
             before_text = text
             d0 = 0
         else:
@@ -564,6 +569,7 @@ def run(tape, opts=None):
             disk.write("a.grd", text)
             # (1) clean loads; path and handle must agree exactly
             o1, r1, _, v1 = L.load("a.grd", text, dtype, "path", where="clean")
+            L.load("a.grd", text, dtype, "pathlib", where="clean")
             h = disk.handle("a.grd")
             o2, r2, _, _ = L.load("a.grd", text, dtype, "handle", handle=h, where="clean")
             if v1.kind != "load":
@@ -600,7 +606,7 @@ def run(tape, opts=None):
             for i, (name, ctext) in enumerate(corruptions):
                 fname = f"c{i}.grd"
                 disk.write(fname, ctext)
-                kind = "path" if tape.draw(2, f"c{i}.input") else "handle"
+                kind = tape.pick(["handle", "path", "pathlib"], f"c{i}.input")
                 fault = None
                 if tape.coin(0.25, f"c{i}.inflight"):
                     fault = (tape.pick(["eof", "eio", "interrupt"], f"c{i}.fk"), tape.draw(n_reads + 1, f"c{i}.k"))
